@@ -26,8 +26,9 @@ int main(int argc,char**argv){ int rounds=argc>1?atoi(argv[1]):4; int bad=0;
     if(hole) pthread_join(a,0);                                   /* ... and A exits: its slot in front of theirs is free */
     static struct rcu_head hs[20]; ncb=0; for(int i=0;i<20;i++) urcu_bp_call_rcu(&hs[i],cb);
     fflush(stdout); urcu_bp_call_rcu_before_fork(); urcu_bp_before_fork(); pid_t p=fork();
-    if(p==0){ alarm(15); urcu_bp_after_fork_child(); urcu_bp_call_rcu_after_fork_child();
-      int n=registry_count(); int b=0; if(n!=1){ printf("BUG child round %d: registry holds %d readers, expected only the forking thread\n",r,n); b=1; }
+    if(p==0){ alarm(15); urcu_bp_after_fork_child();
+      int n=registry_count();           /* before the call_rcu handler: it creates a helper thread, which registers itself as a reader */
+      urcu_bp_call_rcu_after_fork_child(); int b=0; if(n!=1){ printf("BUG child round %d: registry holds %d readers, expected only the forking thread\n",r,n); b=1; }
       urcu_bp_read_lock(); urcu_bp_read_unlock(); urcu_bp_synchronize_rcu(); urcu_bp_barrier();
       if(ncb!=20){ printf("BUG child round %d: %d of 20 callbacks ran\n",r,ncb); b=1; }
       fflush(stdout); _exit(b?3:0); }
